@@ -9,7 +9,7 @@
   assignment satisfying the emitted items the output bits encode the sum.
   `vals_sat_iff_holds` ties the item semantics to the emitted clause lists.
 -/
-import SPProofs.Card.Adders
+import SPProofs.Card.Pop
 
 namespace SPModel.C12
 open SPModel Builder
@@ -109,7 +109,12 @@ theorem popCount_spec (b : Builder) (xs : List Int) (sat : Nat)
       out.length = (if sat = 0 then clog2 xs.length + 1 else min (clog2 xs.length + 1) (max sat 1)) ∧
       ∀ τ, b'.Holds τ →
         bitsVal τ out = (if sat = 0 ∨ out.length < sat then litCount τ xs else satRepr sat (litCount τ xs)) := by
-  sorry
+  obtain ⟨out, b', heq, g, hok, hlen, hv⟩ := popCount_full b xs sat hx hne
+  refine ⟨out, b', heq, g.ext, hok, ?_, hv⟩
+  rw [hlen]
+  split
+  · rfl
+  · congr 1; omega
 
 /-- Non-vacuity: a concrete call meets the hypotheses and produces gates. -/
 example : ((fromFresh 3).popCount [1, 2, 3] 2).toOption.map (fun r => (r.1, r.2.nvars)) = some ([11, 10], 11) := by
